@@ -374,10 +374,35 @@ def run(ctx, chk):
             chk.require(got == want["variants"], "C15/table", ename,
                         "reply table is %s, specification table says %s" % (got, want["variants"]),
                         "table agrees", site)
+    # per command: the reply set (by control fields) of the enum its sequence parses is the one the specification lists for
+    # it - under whatever name that enum goes (two commands with the same reply set may share one enum; a command that is
+    # given a wider enum accepts a reply outside its set)
+    import seqcheck
+    seq_spec = ctx.spec("sequences.json")
+    seqs, _ = seqcheck.sequences(zvt)
+    served = set()
+    n_seq = 0
+    for sname, sp_ in sorted(seq_spec.items()):
+        if sname.startswith("_"):
+            continue
+        ent = seqs.get(sname)
+        if ent is None:
+            continue
+        out = ent["output"]
+        adt = zvt.adts.get(out)
+        want = spec.get(sp_["output"], {}).get("variants")
+        if adt is None or want is None:
+            continue
+        got = sorted(tuple(cmds.get(ty_str(v["fields"][0]["ty"])) or ()) for v in adt["variants"] if len(v.get("fields", [])) == 1)
+        n_seq += 1 if out in seen_enums else 0
+        served.add(sp_["output"])
+        chk.require(got == sorted(map(tuple, want.values())) and out in seen_enums, "C15/reply-set", sname,
+                    "the sequence parses %s with control fields %s; the specification lists %s for this command"
+                    % (out, got, sorted(map(tuple, want.values()))), "reply set agrees", ent.get("sp"))
     for e in spec:
         if not e.startswith("_"):
-            chk.require(e in seen_enums, "C15/present", e, "reply enum of the specification table has no parser", "",
+            chk.require(e in seen_enums or e in served, "C15/present", e, "reply enum of the specification table has no parser", "",
                         nontrivial=False)
-    chk.floor("reply enums", len(parsers), 17)
+    chk.floor("commands whose reply enum has a parser", n_seq, 17)
     chk.floor("decision-tree leaves", n_leaves, 80)
     chk.trusted.extend(["rustc MIR construction of match on (u8,u8) tuples", "const evaluation of CLASS/INSTR"])
